@@ -264,6 +264,7 @@ def run(ctx) -> None:
         # (b) raise error from None, error derived from e
         raises = [n for n in cfg.nodes if n.kind == "stmt" and isinstance(n.ast, ast.Raise) and any(contains(s, n.ast) for s in h.body)]
         okr = bool(raises)
+        cause_erased = False
         for n in raises:
             a = n.ast
             if a.exc is None:
@@ -278,9 +279,13 @@ def run(ctx) -> None:
                     okr = False
             else:
                 okr = False
-            if not (isinstance(a.cause, ast.Constant) and a.cause.value is None) and a.exc is not None and not (isinstance(a.exc, ast.Name) and a.exc.id == hname):
+            # the node's exception surfaces as the node raised it: the re-raise must not rewrite its explicit cause
+            # ('raise error from None' erases the __cause__ of a node that did 'raise E2(...) from orig'); accepted:
+            # no 'from' clause, or 'from <the same error>.__cause__' (keeps the cause, still hides the internal carrier)
+            if a.cause is not None and not (isinstance(a.cause, ast.Attribute) and a.cause.attr == "__cause__" and src(a.cause.value) == src(a.exc)):
                 okr = False
-        rep.add("C11.R2", f"{m.qname}:raise-unwrapped", okr, f"{m.module.rel}:{raises[0].lineno if raises else h.lineno}", "raises the unwrapped error 'from None'" if okr else "raise in the boundary handler is not the unwrapped error 'from None'")
+                cause_erased = isinstance(a.cause, ast.Constant) and a.cause.value is None
+        rep.add("C11.R2", f"{m.qname}:raise-unwrapped", okr, f"{m.module.rel}:{raises[0].lineno if raises else h.lineno}", "raises the unwrapped error with its own cause untouched" if okr else ("the boundary handler re-raises the node's exception 'from None': the exception object the caller receives has lost the explicit __cause__ the node gave it ('raise E2(...) from orig' arrives with __cause__ None)" if cause_erased else "raise in the boundary handler is not the unwrapped error with its cause untouched"))
         # (c) FAILED values derive from filter_outputs(partial_state)
         okv = False
         for n in cfg.nodes:
@@ -615,8 +620,10 @@ VARIANTS = [
     Variant("async-runner-carrier-without-cause", AR, replace_once("                    raise ExecutionError(e, state) from e", "                    raise ExecutionError(RuntimeError(str(e)), state) from e"), {"C11.R1"}),
     Variant("map-item-swallow", TA, sub_once(r"(            except Exception as e:\n                # Catch validation errors.*?\n                # before run\(\)'s execution try block\n                return RunResult\(\n                    values=\{\},\n                    status=RunStatus\.)FAILED(,\n                    run_id=_generate_run_id\(\),\n                    error=e,)", r"\1COMPLETED\2"), {"C11.R1"}),
     Variant("template-no-unwrap", TS, replace_once("                error = e.__cause__ if e.__cause__ is not None else e\n                partial_state = e.partial_state", "                partial_state = e.partial_state"), {"C11.R2"}),
-    Variant("template-raise-with-context", TA, replace_once("                raise error from None", "                raise e"), {"C11.R2"}),
-    Variant("template-nested-reraises-carrier", TA, replace_once("            if error_handling == \"raise\":\n                raise error from None\n\n            partial_values = filter_outputs(partial_state, graph, select) if partial_state is not None else {}\n            return RunResult(\n                values=partial_values,\n                status=RunStatus.FAILED,", "            if error_handling == \"raise\":\n                if _parent_span_id is not None and isinstance(e, ExecutionError):\n                    raise\n                raise error from None\n\n            partial_values = filter_outputs(partial_state, graph, select) if partial_state is not None else {}\n            return RunResult(\n                values=partial_values,\n                status=RunStatus.FAILED,"), {"C11.R2"}),
+    Variant("template-raise-with-context", TA, replace_once("                raise error from error.__cause__", "                raise e"), {"C11.R2"}),
+    Variant("template-reraise-erases-node-cause", TA, replace_once("                raise error from error.__cause__", "                raise error from None"), {"C11.R2"}),
+    Variant("twin-template-reraise-plain", TA, replace_once("                raise error from error.__cause__", "                raise error"), set()),
+    Variant("template-nested-reraises-carrier", TA, replace_once("            if error_handling == \"raise\":\n                raise error from error.__cause__\n\n            partial_values = filter_outputs(partial_state, graph, select) if partial_state is not None else {}\n            return RunResult(\n                values=partial_values,\n                status=RunStatus.FAILED,", "            if error_handling == \"raise\":\n                if _parent_span_id is not None and isinstance(e, ExecutionError):\n                    raise\n                raise error from error.__cause__\n\n            partial_values = filter_outputs(partial_state, graph, select) if partial_state is not None else {}\n            return RunResult(\n                values=partial_values,\n                status=RunStatus.FAILED,"), {"C11.R2"}),
     Variant("template-failed-values-empty", TS, replace_once("            partial_values = filter_outputs(partial_state, graph, select) if partial_state is not None else {}", "            partial_values = {}"), {"C11.R2"}),
     Variant("sync-update-in-finally", SS, sub_once(r"                # Re-raise other BaseExceptions \(KeyboardInterrupt, SystemExit, etc\.\)\n                raise\n", "                # Re-raise other BaseExceptions (KeyboardInterrupt, SystemExit, etc.)\n                if not isinstance(e, KeyboardInterrupt):\n                    outputs = {}\n                else:\n                    raise\n"), {"C11.R3", "C11.R1"}),
     Variant("async-apply-failed", AS, replace_once("        if isinstance(result, BaseException):\n            if first_error is None:\n                first_error = result\n            continue\n", "        if isinstance(result, BaseException):\n            if first_error is None:\n                first_error = result\n            if not isinstance(result, ExecutionError):\n                continue\n            result = (ready_nodes[0], {}, {}, {})\n"), {"C11.R3"}),
